@@ -54,6 +54,7 @@ const (
 	extensionMask           = 0x1
 	extensionProfileOneByte = 0xBEDE
 	extensionProfileTwoByte = 0x1000
+	extensionProfileAppbits = 0x000F
 	extensionIDReserved     = 0xF
 	ccMask                  = 0xF
 	markerShift             = 7
@@ -82,6 +83,17 @@ func (p Packet) String() string {
 	out += fmt.Sprintf("\tPayload Length: %d\n", len(p.Payload))
 
 	return out
+}
+
+// extensionForm tells which form the elements of an extension block with this profile have.
+// The RFC 8285 two-byte form is announced by 0x100 followed by four application bits (appbits),
+// which a receiver ignores: all sixteen values mean the two-byte form.
+func extensionForm(profile uint16) uint16 {
+	if profile&^extensionProfileAppbits == extensionProfileTwoByte {
+		return extensionProfileTwoByte
+	}
+
+	return profile
 }
 
 // Unmarshal parses the passed byte slice and stores the result in the Header.
@@ -158,7 +170,7 @@ func (h *Header) Unmarshal(buf []byte) (n int, err error) { //nolint:gocognit,cy
 			return n, fmt.Errorf("size %d < %d: %w", len(buf), extensionEnd, errHeaderSizeInsufficientForExtension)
 		}
 
-		if h.ExtensionProfile == extensionProfileOneByte || h.ExtensionProfile == extensionProfileTwoByte {
+		if form := extensionForm(h.ExtensionProfile); form == extensionProfileOneByte || form == extensionProfileTwoByte {
 			var (
 				extid      uint8
 				payloadLen int
@@ -304,7 +316,7 @@ func (h Header) MarshalTo(buf []byte) (n int, err error) { //nolint:cyclop
 		n += 4
 		startExtensionsPos := n
 
-		switch h.ExtensionProfile {
+		switch extensionForm(h.ExtensionProfile) {
 		// RFC 8285 RTP One Byte Header Extension
 		case extensionProfileOneByte:
 			for _, extension := range h.Extensions {
@@ -357,7 +369,7 @@ func (h Header) MarshalSize() int {
 	if h.Extension {
 		extSize := 4
 
-		switch h.ExtensionProfile {
+		switch extensionForm(h.ExtensionProfile) {
 		// RFC 8285 RTP One Byte Header Extension
 		case extensionProfileOneByte:
 			for _, extension := range h.Extensions {
@@ -384,7 +396,7 @@ func (h Header) MarshalSize() int {
 // SetExtension sets an RTP header extension.
 func (h *Header) SetExtension(id uint8, payload []byte) error { //nolint:gocognit, cyclop
 	if h.Extension { // nolint: nestif
-		switch h.ExtensionProfile {
+		switch extensionForm(h.ExtensionProfile) {
 		// RFC 8285 RTP One Byte Header Extension
 		case extensionProfileOneByte:
 			if id < 1 || id > 14 {
